@@ -215,6 +215,16 @@ def foreign_cases():
         prog = M.program("exp%d" % i, body, salt=[None, "s", "é"][i % 3], splitters=names)
         inputs = [M.enc_inputs({n: "%s-%d" % (n, j) for n in names}) for j in range(12)]
         out.append({"prog": prog, "inputs": inputs})
+    # experiments with plain tuple literals (no field inside): built here AFTER this process has compiled many other experiments
+    # (tuples with fields among them), generated in fresh child interpreters - what one experiment needs does not depend on what
+    # else a process has compiled
+    T, S, L, I = M.tup, M.lit_str, M.lit_int, M.ident
+    for i, pred in enumerate([M.cmp_(I("country"), "in", T([S("FR"), S("DE")])), M.cmp_(I("tier"), "not in", T([L("1"), L("2"), T([L("3"), L("4")])])),
+                              M.cmp_(T([L("1"), L("2")]), "!=", I("pair")), M.and_(M.cmp_(I("country"), "in", T([S("US")])), M.cmp_(I("tier"), "==", T([L("1")])))]):
+        fields = sorted({c[side]["name"] for c in M.cmps(pred) for side in ("l", "r") if c[side]["k"] == "id"})
+        prog = M.program("tup%d" % i, M.if_([(pred, R("p"))], R("q")), salt="t", splitters=["uid"])
+        inputs = [M.enc_inputs(dict({f: v for f in fields}, uid="u%d" % j)) for j, v in enumerate(["FR", 1, (1, 2), (1,), "US", 3, (3, 4), "x"])]
+        out.append({"prog": prog, "inputs": inputs})
     return out
 
 
